@@ -49,7 +49,7 @@ REAL = ['smartquery.functions (regex builtins, flag parsing)', 'evaluator', 'reg
 STUB = ['regex engine for TIMING (virtual clock charged with the timeout passed)', 'wall clock read through time.*', 'host wait()']
 SIM_TIME = 'virtual seconds charged to regex engine entries and host waits (see counters virtual_ms)'
 REACH_PROBES = ('match', 'match_groups', 'match_all', 'flags', 'inside_lambda', 'long_subject', 'nested_quantifier', 'two_groups',
-                'time_passed_before_call', 'engine_entries', 'slow_last_argument', 'engine_timeout_raised', 'host_calls_returned_lambda')
+                'time_passed_before_call', 'engine_entries', 'slow_last_argument', 'engine_timeout_raised', 'host_calls_returned_lambda', 'host_compiled_pattern')
 
 FLAGS = [None, '', 'i', 'm', 's', 'ims', 'IM', 'is', 'x', 'zz', 'iiii']
 BENIGN = ['\\d+', '[a-z]+', '(\\w)(\\d)', 'b', '.', 'a|b', '^a', 'c$', '(a)(b)?', '\\s']
@@ -58,7 +58,7 @@ NASTY = ['(?:a|aa)+?', '(a|aa)+?(?=a|b)', '^(\\w+-?)+{id}$', 'a{x}(b+)+$', '(a+)
 
 
 def _call_tree(r, fn, subj, pat, flags):
-    args = [subj, ['str', pat]]
+    args = [subj, ['name', pat[1:]] if pat.startswith('@') else ['str', pat]]
     if flags is not None or r.random() < 0.1:
         args.append(['none'] if flags is None else ['str', flags])
     if r.random() < 0.2:
@@ -78,6 +78,8 @@ def generate(seed, tier):
             fn = ro.choice(['match', 'match_groups', 'match_all'])
             nasty = ro.random() < 0.4
             pat = ro.choice(NASTY if nasty else BENIGN)
+            if ro.random() < 0.1:
+                pat = '@PAT' if nasty else '@PATB'       # a pattern the host compiled and bound in names
             subj_kind = weighted(ro, [('short', 4), ('adversarial', 3 if nasty else 0.5), ('long', 1.5), ('huge', 0.4)])
             subj = {'short': ['name', 'S'], 'adversarial': ['name', 'ADV'], 'long': ['name', 'LONG'], 'huge': ['name', 'HUGE']}[subj_kind]
             flags = ro.choice(FLAGS)
@@ -94,6 +96,8 @@ def generate(seed, tier):
                 kinds.append('flags')
             if subj_kind in ('long', 'huge'):
                 kinds.append('long_subject')
+            if pat.startswith('@'):
+                kinds.append('host_compiled_pattern')
             if pat.count('(') - pat.count('(?') >= 2:
                 kinds.append('two_groups')
             stmts.append(['assign', 'r%d' % len(stmts), t] if ro.random() < 0.5 else t)
@@ -115,6 +119,9 @@ def execute(case, ctx):
     w = case['world']
     names = {'S': 'ab1 cd22', 'ADV': 'a' * w['adv_len'] + 'b!', 'LONG': 'x' * (w['long_len'] - 30) + 'a' * 28 + 'b!',
              'HUGE': ('ab ' * (w['huge_len'] // 3))}
+    import regex as _regex
+    names['PAT'] = _regex.compile('(a|aa)+$')        # through the seam: a recording proxy of the compiled pattern
+    names['PATB'] = _regex.compile('\\d+')
 
     def wait(sec):
         VCLOCK.advance(float(sec))
@@ -189,7 +196,10 @@ def execute(case, ctx):
         ctx.state(canon.digest([len(REGEX.entries), round(VCLOCK.offset, 2), rout.kind]))
         ctx.stats['virtual_ms'] += int((VCLOCK.offset - off_before) * 1000)
         what = 'step %d %r' % (step, src[:200])
-        if rout.kind == 'base':
+        if type(rout.exc).__name__ == 'SimDeadlock':
+            ctx.fault('lock_still_held')
+            ctx.report('regex_call_blocks_forever', '%s: %s' % (what, rout.exc), {'kind': 'regex_call_blocks_forever'})
+        elif rout.kind == 'base':
             ctx.report('non_exception_escaped', '%s: %r' % (what, rout.exc), {'kind': 'non_exception_escaped'})
         attributed = 0
         for name, entries, elapsed in rec.findings:
